@@ -12,7 +12,8 @@ ID = "C05"
 LEVEL = "exploration"
 SHARDS = {"quick": 1, "thorough": 16}
 RULE = (
-    "case = (signature, call shape, requested-name variant, mode in {all-hold, pre-violated, post-violated}); "
+    "case = (signature, call shape, requested-name variant, mode in {all-hold, pre-violated, post-violated}, flavour in "
+    "{def, async def, method called on an instance (self requestable, _ARGS starts with the instance)}); "
     "signatures: 0..2 positional-only x 0..3 positional-or-keyword x *args? x 0..2 keyword-only x **kwargs? x every "
     "legal default placement; shapes: every bindable count of positionals (surplus 0..2 with *args), every "
     "keyword/omitted choice, surplus keywords z1,z2 and names equal to positional-only parameters with **kwargs. "
@@ -37,9 +38,10 @@ class FactoryError(Exception):
 class Rig:
     """One decorated function + callbacks for (sig, req)."""
 
-    def __init__(self, sig, req, dreq=None):
+    def __init__(self, sig, req, dreq=None, flavour="func"):
         import icontract
 
+        self.flavour = flavour
         self.sig = sig
         self.req = req
         self.dreq = dreq or {}
@@ -55,7 +57,10 @@ class Rig:
             # every other default is None (the most common default, and a value implementations like to test for)
             self.defaults[n] = None if i % 2 else Obj("dflt_" + n)
             g["D_" + n] = self.defaults[n]
-        src = ["def f(%s):\n    return BODY(locals())\n" % sigmodel.render_params(sig)]
+        params = sigmodel.render_params(sig)
+        if flavour == "method":
+            params = "self, " + params if params else "self"
+        src = ["%sdef f(%s):\n    return BODY(locals())\n" % ("async " if flavour == "async" else "", params)]
         for role in ("pre", "cap", "post", "errpre", "errpost"):
             dn = set(self.dreq.get(role, []))
             names = [n for n in req[role] if n not in dn] + ["%s=CBDEF" % n for n in req[role] if n in dn]
@@ -67,6 +72,28 @@ class Rig:
         f = icontract.snapshot(g["cap"], name="snap")(f)
         f = icontract.require(g["pre"], error=g["errpre"])(f)
         self.func = f
+        self.inst = None
+        if flavour == "method":
+            self.inst = type("K", (), {"f": f})()
+
+    def prefix(self):
+        """Positional arguments Python puts in front of the call's own (the instance of a method call)."""
+        return (self.inst,) if self.flavour == "method" else ()
+
+    def call(self, fn, args, kwargs):
+        """Call the bare or the decorated callable the way a user would and return its result."""
+        if self.flavour == "method" and fn is self.func:
+            ret = self.inst.f(*args, **kwargs)
+        else:
+            ret = fn(*(self.prefix() + tuple(args)), **kwargs)
+        if self.flavour == "async":
+            try:
+                ret.send(None)
+            except StopIteration as stop:
+                return stop.value
+            ret.close()
+            raise core.HarnessError("the coroutine suspended although nothing awaits")
+        return ret
 
     def _body(self, loc):
         self.log.append(("body", dict(loc)))
@@ -89,20 +116,20 @@ class _Bound:
         self.arguments = arguments
 
 
-def get_rig(sig, req, dreq=None):
-    key = core.h64([sig, req, dreq])
+def get_rig(sig, req, dreq=None, flavour="func"):
+    key = core.h64([sig, req, dreq, flavour])
     rig = _cache.get(key)
     if rig is None:
         if len(_cache) > 4000:
             _cache.clear()
-        rig = _cache[key] = Rig(sig, req, dreq)
+        rig = _cache[key] = Rig(sig, req, dreq, flavour)
     return rig
 
 
-def req_variants(sig):
+def req_variants(sig, flavour="func"):
     """Deterministic requested-name variants for the enumerating tier."""
     names = sigmodel.sig_params(sig)
-    full = names + ["_ARGS", "_KWARGS"]
+    full = (["self"] if flavour == "method" else []) + names + ["_ARGS", "_KWARGS"]
     out = []
     out.append({"pre": full, "cap": full, "post": full + ["result", "OLD"], "errpre": full,
                 "errpost": full + ["result", "OLD"]})
@@ -128,8 +155,10 @@ def expected_value(name, sig, bound, args, kwargs, rig):
     """What a callback must receive for ``name`` -> ('val', obj) | ('missing',)"""
     if name in sigmodel.sig_params(sig):
         return ("val", bound.arguments[name])
+    if name == "self" and rig.flavour == "method":
+        return ("val", rig.inst)
     if name == "_ARGS":
-        return ("args", args)
+        return ("args", rig.prefix() + tuple(args))
     if name == "_KWARGS":
         return ("kwargs", kwargs)
     if name in (sigmodel.VA_NAME, sigmodel.VK_NAME):
@@ -142,17 +171,17 @@ def expected_value(name, sig, bound, args, kwargs, rig):
 def run_case(ctx, case):
     sig, shape, req, mode = case["sig"], case["shape"], case["req"], case["mode"]
     dreq = case.get("dreq") or {}
-    rig = get_rig(sig, req, dreq)
+    rig = get_rig(sig, req, dreq, case.get("flavour", "func"))
     args, kwargs = sigmodel.make_call(sig, shape)
     # what the body receives: call the bare function with the very same objects
     rig.log = []
     try:
-        rig.bare(*args, **kwargs)
+        rig.call(rig.bare, args, kwargs)
     except TypeError as e:
         raise core.HarnessError("generated shape is not accepted by Python: %r %r: %s" % (sig, shape, e))
     bound = _Bound(rig.log[0][1])
     try:
-        b2 = rig.bare_sig.bind(*args, **kwargs)
+        b2 = rig.bare_sig.bind(*(rig.prefix() + tuple(args)), **kwargs)
         b2.apply_defaults()
         for n in sigmodel.sig_params(sig):
             if b2.arguments[n] is not bound.arguments[n]:
@@ -209,7 +238,9 @@ def run_case(ctx, case):
     got_exc = None
     got_ret = None
     try:
-        got_ret = rig.func(*args, **kwargs)
+        got_ret = rig.call(rig.func, args, kwargs)
+    except core.HarnessError:
+        raise
     except BaseException as e:  # noqa
         got_exc = e
 
@@ -227,7 +258,7 @@ def run_case(ctx, case):
         bucket = "%s|%s" % (clause, ",".join(sit))
         c = dict(case)
         c["mismatch_param"] = pname
-        ctx.fail(bucket, c, "%s\nsignature: def f(%s)\ncall: %d positionals, keywords %s\nrequested: %s\nmode %s" % (
+        ctx.fail(bucket, c, "%s\nflavour " + case.get("flavour", "func") + "\nsignature: def f(%s)\ncall: %d positionals, keywords %s\nrequested: %s\nmode %s" % (
             detail, sigmodel.render_params(sig, lambda n: "<dflt>"), shape["npos"],
             sorted(kwargs), req, mode))
 
@@ -286,8 +317,8 @@ def run_case(ctx, case):
                 if got is not kind[1]:
                     fail("named-identity", "%s received %s=%r, the body receives %r" % (role, n, got, kind[1]), n)
             elif kind[0] == "args":
-                if not (isinstance(got, tuple) and len(got) == len(args) and all(x is y for x, y in zip(got, args))):
-                    fail("_ARGS", "%s received _ARGS=%r, call had %r" % (role, got, args), n)
+                if not (isinstance(got, tuple) and len(got) == len(kind[1]) and all(x is y for x, y in zip(got, kind[1]))):
+                    fail("_ARGS", "%s received _ARGS=%r, call had %r" % (role, got, kind[1]), n)
             elif kind[0] == "kwargs":
                 if not (isinstance(got, dict) and list(got) == list(kwargs) and all(got[k] is kwargs[k] for k in kwargs)):
                     fail("_KWARGS", "%s received _KWARGS=%r, call had %r" % (role, got, kwargs), n)
@@ -306,13 +337,14 @@ def do_case(ctx, case):
     for f in feats:
         ctx.count("shape:" + f)
     ctx.count("mode:" + case["mode"])
+    ctx.count("flavour:" + case.get("flavour", "func"))
     ctx.case(case, bool(NONTRIV & set(feats)), sample=lambda: sample_of(case))
 
 
 def sample_of(case):
     sig = case["sig"]
     return {"def": "def f(%s)" % sigmodel.render_params(sig, lambda n: "<dflt>"), "shape": case["shape"],
-            "requested": case["req"], "mode": case["mode"]}
+            "requested": case["req"], "mode": case["mode"], "flavour": case.get("flavour", "func")}
 
 
 def exclusion(ctx, case):
@@ -335,6 +367,8 @@ KNOWN = {
 def replay(ctx, case):
     c = {k: case[k] for k in ("sig", "shape", "req", "mode")}
     c["dreq"] = case.get("dreq")
+    if "flavour" in case:
+        c["flavour"] = case["flavour"]
     run_case(ctx, c)
     ctx.evaluations += 1
 
@@ -357,6 +391,12 @@ def run(ctx, tier, seed, shard, nshards):
                     for dreq in (dreq_variants(req) if vi == 0 else dreq_variants(req)[:2]):
                         for mode in modes:
                             do_case(ctx, {"sig": sig, "shape": shape, "req": req, "dreq": dreq, "mode": mode})
+                # the same signature as `async def` and as a method called on an instance (conditions may ask for self)
+                for flavour in ("async", "method"):
+                    req = req_variants(sig, flavour)[0]
+                    for mode in modes:
+                        do_case(ctx, {"sig": sig, "shape": shape, "req": req, "dreq": None, "mode": mode,
+                                      "flavour": flavour})
                 # one nobody-supplies-it name in each callback in turn
                 for role in MISSING_VARIANTS:
                     req = {r: list(v) for r, v in variants[1].items()}
@@ -375,7 +415,10 @@ def run(ctx, tier, seed, shard, nshards):
     def st_case(draw):
         sig = draw(sigmodel.st_sig(**bounds))
         shape = draw(sigmodel.st_shape(sig, max_surplus=3 if tier == "thorough" else 2))
+        flavour = draw(st.sampled_from(["func", "func", "async", "method"]))
         names = sigmodel.sig_params(sig) + ["_ARGS", "_KWARGS"] + (["z1", "z2"] if sig["vk"] else [])
+        if flavour == "method":
+            names.append("self")
         req = {}
         for role in ("pre", "cap", "post", "errpre", "errpost"):
             pool = list(names)
@@ -388,7 +431,8 @@ def run(ctx, tier, seed, shard, nshards):
         dreq = None
         if draw(st.booleans()):
             dreq = {r: [n for n in v if n not in ("result", "OLD") and draw(st.booleans())] for r, v in req.items()}
-        return {"sig": sig, "shape": shape, "req": req, "dreq": dreq, "mode": draw(st.sampled_from(modes))}
+        return {"sig": sig, "shape": shape, "req": req, "dreq": dreq, "mode": draw(st.sampled_from(modes)),
+                "flavour": flavour}
 
     @given(st_case())
     def test(case):
